@@ -293,3 +293,31 @@ Definition ok_count (added : list rule) (diffs : list Z) (out : list Z) : bool :
       forallb (fun '(g, mn, mx) => (mn <=? g) && (g <=? mx)) ts &&
       mono_ok (combine diffs (map (fun '(g, _, _) => g) ts))
   end.
+
+(* ------------------------------------------------------------------ a decoded case, its model output, its judge *)
+Inductive ccase :=
+| CParse (s : list Z)
+| CFormat (id : Z)
+| CIdgen
+| CStr (n : Z) (cs script : list Z)
+| CCount (idt : list Z) (added : list rule) (diffs : list Z)
+| CBad.
+Definition run_case (c : ccase) : list Z :=
+  match c with
+  | CParse s => m_parse s
+  | CFormat id => m_format id
+  | CIdgen => [1]
+  | CStr n cs ws => m_str n cs ws
+  | CCount i a d => m_count i a d
+  | CBad => [BADCASE]
+  end.
+(* spec_ok: what the property demands of an output for this case (applied by the check to the implementation's output) *)
+Definition ok_case (c : ccase) (out : list Z) : bool :=
+  match c with
+  | CParse s => list_eqb out (s_parse s)
+  | CFormat id => ok_format id out
+  | CIdgen => list_eqb out [1]
+  | CStr n cs _ => ok_str n cs out
+  | CCount _ a d => ok_count a d out
+  | CBad => false
+  end.
